@@ -134,7 +134,7 @@ class SearchModel:
         return atom(f"bool({self.graph}.{HIER}({a}, {b}))")
 
     def guard_of(self, node: ast.AST, extra: list | None = None) -> Formula:
-        return conds_formula(list(conds(self.fi, node)) + list(extra or []), self.subst)
+        return conds_formula(all_conds(self.fi, node) + list(extra or []), self.subst)
 
 
 # --------------------------------------------------------------------------- view
@@ -366,6 +366,32 @@ def _inside_gen(node: ast.AST, comp: ast.AST, j: int) -> bool:
     return False
 
 
+def _comp_conditions(node: ast.AST) -> list:
+    """Filters of a comprehension that hold where `node` is evaluated *inside a generator clause* (core/cfg.expr_conditions only
+    covers the element): in the iterable of generator k the filters of the generators before k, in a filter of generator k
+    additionally the earlier filters of k."""
+    out: list = []
+    ch = _chain(node)
+    for i, a in enumerate(ch):
+        if isinstance(a, ast.stmt):
+            break
+        if isinstance(a, ast.comprehension) and i + 1 < len(ch) and isinstance(ch[i + 1], (*_COMPS, ast.DictComp)):
+            comp = ch[i + 1]
+            k = next(k for k, g in enumerate(comp.generators) if g is a)
+            for g in comp.generators[:k]:
+                out += [(c, True) for c in g.ifs]
+            if i > 0:
+                for c in a.ifs:
+                    if c is ch[i - 1]:
+                        break
+                    out.append((c, True))
+    return out
+
+
+def all_conds(v: FuncInfo, node: ast.AST) -> list:
+    return list(conds(v, node)) + _comp_conditions(node)
+
+
 def _single_assignments(fn: ast.AST) -> dict[str, ast.expr]:
     """name -> value for locals bound exactly once, by a plain or annotated assignment."""
     counts: dict[str, int] = {}
@@ -433,7 +459,40 @@ def make_subst(repo: Repo, v: FuncInfo):
     helper = bool_inliner(repo).subst(v, 0, None)
     hp = _hier_params(repo)
 
+    mutated_at = _mutation_positions(v.node)
+
+    def union_parts(name: str) -> list[str] | None:
+        """[A, B, ..] if the local `name` is bound once to the union of node sets that are complete by then."""
+        if name not in single or name in params:
+            return None
+        val = strip(single[name])
+        parts: list[ast.AST] = []
+        if isinstance(val, ast.BinOp) and isinstance(val.op, ast.BitOr):
+            todo = [val]
+            while todo:
+                x = todo.pop()
+                if isinstance(x, ast.BinOp) and isinstance(x.op, ast.BitOr):
+                    todo += [x.right, x.left]
+                else:
+                    parts.append(strip(x))
+        elif isinstance(val, ast.Call) and isinstance(val.func, ast.Attribute) and val.func.attr == "union" and val.args and not val.keywords:
+            parts = [strip(val.func.value), *[strip(a) for a in val.args]]
+        elif isinstance(val, ast.Set) and val.elts and all(isinstance(x, ast.Starred) for x in val.elts):
+            parts = [strip(x.value) for x in val.elts]
+        if len(parts) < 2 or not all(isinstance(x, ast.Name) for x in parts):
+            return None
+        here = mutated_at["@pos"].get(id(single[name]), -1)
+        for x in parts:
+            if any(pos > here for pos in mutated_at.get(x.id, [])):
+                return None  # a part still changes after the union was taken
+        return [x.id for x in parts]
+
     def subst(e: ast.expr):
+        if isinstance(e, ast.Compare) and len(e.ops) == 1 and isinstance(e.ops[0], (ast.In, ast.NotIn)) and isinstance(e.comparators[0], ast.Name):
+            parts = union_parts(e.comparators[0].id)
+            if parts is not None:
+                f = f_or([atom(f"{norm(e.left)} in {x}") for x in parts])
+                return f if isinstance(e.ops[0], ast.In) else f_not(f)
         if isinstance(e, ast.Name) and e.id in single and e.id not in params:
             val = single[e.id]
             if isinstance(val, (ast.Call, ast.Compare, ast.BoolOp, ast.UnaryOp)) and not _is_collection_expr(val):
@@ -448,6 +507,33 @@ def make_subst(repo: Repo, v: FuncInfo):
         return helper(e)
 
     return subst
+
+
+def _mutation_positions(fn: ast.AST) -> dict:
+    """name -> positions (pre-order index) of statements mutating / rebinding it; "@pos": id(node) -> position."""
+    pos: dict[int, int] = {}
+    out: dict = {"@pos": pos}
+    for i, n in enumerate(_preorder(fn)):
+        pos[id(n)] = i
+    for n in _preorder(fn):
+        name = None
+        if isinstance(n, ast.Call) and isinstance(n.func, ast.Attribute) and isinstance(n.func.value, ast.Name) and n.func.attr in ("add", "update", "remove", "discard", "clear", "pop", "difference_update", "intersection_update", "symmetric_difference_update", "append", "extend", "insert"):
+            name = n.func.value.id
+        elif isinstance(n, ast.AugAssign) and isinstance(n.target, ast.Name):
+            name = n.target.id
+        elif isinstance(n, ast.Name) and isinstance(n.ctx, (ast.Store, ast.Del)):
+            name = n.id
+        if name is not None:
+            out.setdefault(name, []).append(pos[id(n)])
+    return out
+
+
+def _preorder(fn: ast.AST):
+    stack = [fn]
+    while stack:
+        n = stack.pop()
+        yield n
+        stack.extend(reversed(list(ast.iter_child_nodes(n))))
 
 
 def _is_collection_expr(e: ast.expr) -> bool:
@@ -855,15 +941,61 @@ def build(repo: Repo, fi: FuncInfo) -> SearchModel | None:
                 from core.cfg import expr_conditions
 
                 extra += expr_conditions(elt)
-                cs_ = list(conds(v, s.node)) + extra
+                cs_ = all_conds(v, s.node) + extra
             else:
-                cs_ = list(conds(v, elt))
+                cs_ = all_conds(v, elt)
             its = [i for i in iters if (_inside_body(elt, i.node) if i.gen is None else _inside_gen(elt, i.node, i.gen)) or (_inside_body(s.node, i.node) if i.gen is None else _inside_gen(s.node, i.node, i.gen))]
             for i in its:
                 cs_ += i.extra
             g = conds_formula(cs_, model.subst)
             text = " and ".join(("" if pol else "not ") + norm(e) for e, pol in cs_) or "True"
             raw.append((s, elt, comp, inner_it, g, text))
+
+    # ---- two-phase results: candidates collected inside the neighbour iteration into a local list, recorded by a later pass
+    #      over that list (`for a, b in candidates if ..`): the record happens under both guards
+    chained: list[tuple] = []
+    collectors: dict[str, list] = {}
+    for s, elt, comp, it_, g, text in raw:
+        if it_ is not None and s.receiver.isidentifier() and s.receiver != worklist and s.receiver not in v.param_names and s.method in ("append", "add", "extend", "update", "+="):
+            names = [x.id for x in elt.elts] if isinstance(elt, (ast.Tuple, ast.List)) and all(isinstance(x, ast.Name) for x in elt.elts) else [elt.id] if isinstance(elt, ast.Name) else None
+            if names:
+                collectors.setdefault(s.receiver, []).append((names, it_, all_conds(v, elt) + it_.extra))
+    for s in sites:
+        if not (s.receiver in rets or s.receiver == "<return>"):
+            continue
+        for elt, comp in s.elements:
+            if in_outer(s.node) or in_outer(elt) or niter_of(elt) is not None:
+                continue
+            # the loop / generator that feeds the element
+            feeder = None
+            for a in ancestors(elt):
+                cands = [(a.target, a.iter)] if isinstance(a, (ast.For, ast.AsyncFor)) else [(g_.target, g_.iter) for g_ in a.generators] if isinstance(a, (*_COMPS, ast.DictComp)) else []
+                for tgt, it_expr in cands:
+                    src = strip(it_expr)
+                    if isinstance(src, ast.Name) and src.id in collectors:
+                        feeder = (tgt, src.id)
+                if feeder or isinstance(a, ast.stmt) and not isinstance(a, (ast.For, ast.AsyncFor, ast.If)):
+                    break
+            if feeder is None:
+                continue
+            tgt, lname = feeder
+            tnames = [x.id for x in tgt.elts] if isinstance(tgt, (ast.Tuple, ast.List)) and all(isinstance(x, ast.Name) for x in tgt.elts) else [tgt.id] if isinstance(tgt, ast.Name) else None
+            for names, it_, ccs in collectors[lname]:
+                if tnames is None or len(tnames) != len(names):
+                    continue
+                late = [(e_, pol) for e_, pol in all_conds(v, elt)]
+                ren_elt = elt
+                for old_, new_ in zip(tnames, names):
+                    late = [(_renamed(e_, old_, f"{new_}\x00"), pol) for e_, pol in late]
+                    ren_elt = _renamed(ren_elt, old_, f"{new_}\x00")
+                for new_ in names:
+                    late = [(_renamed(e_, f"{new_}\x00", new_), pol) for e_, pol in late]
+                    ren_elt = _renamed(ren_elt, f"{new_}\x00", new_)
+                cs_ = list(ccs) + late
+                g = conds_formula(cs_, model.subst)
+                text = " and ".join(("" if pol else "not ") + norm(e_) for e_, pol in cs_) or "True"
+                chained.append((s, ren_elt, comp, it_, g, text))
+    raw += chained
 
     # visited sets: a set to which the current node / neighbour is added only if it is not in it yet
     nvars = {i.var for i in iters}
